@@ -138,6 +138,19 @@ def main():
         res = {"evaluations": 0, "distinct_nontrivial": 0, "rule": "", "samples": [],
                "corr": [("harness", False, tb[-3000:])], "violations": [], "dist": {}}
         broken.append("harness crashed: " + tb.strip().split("\n")[-1])
+    # corpus of minimised past failures runs too
+    cdir = os.path.join(common.ROOT, "corpus", prop)
+    ncorpus = 0
+    if os.path.isdir(cdir):
+        for fn in sorted(os.listdir(cdir)):
+            if fn.endswith(".json"):
+                try:
+                    res.setdefault("violations", []).extend(
+                        dict(v, what="[corpus %s] %s" % (fn, v.get("what", ""))) for v in mod.replay(ctx, json.load(open(os.path.join(cdir, fn)))))
+                    ncorpus += 1
+                except Exception:
+                    res.setdefault("corr", []).append(("corpus:" + fn, False, traceback.format_exc()[-800:]))
+    res.setdefault("dist", {})["corpus_replayed"] = ncorpus
     for name, ok, detail in res.get("corr", []):
         obligations.append(("corr:" + name, ok, detail))
         if not ok:
